@@ -42,6 +42,7 @@ InDomain(r) ==
     [] r.op = "large_add_from" -> Normalized(r.x) /\ NonZeroNorm(r.y)
     [] r.op \in {"pow5", "bigint_pow5", "bigint_pow10", "bigint_pow2", "shl", "shl_bits", "shl_limbs"} -> NonZeroNorm(r.x)
     [] r.op \in {"hi64", "bit_length"} -> Normalized(r.x)
+    [] r.op \in {"u32_hi64_1", "u32_hi64_2", "u32_hi64_3", "u64_hi64_1", "u64_hi64_2"} -> r.x # <<>> /\ r.x[1] # <<>>
     [] r.op = "compare" -> Normalized(r.x) /\ Normalized(r.y)
     [] OTHER -> TRUE
 
@@ -59,6 +60,14 @@ Judge1(r) ==
              ELSE IF ~FitsCap(val) THEN "overflow reported" ELSE "refused although the result fits"
      ELSE IF r.op = "compare" THEN (IF o.k = Cmp(ValueOfVec(r.x), ValueOfVec(r.y)) THEN "exact" ELSE "wrong value")
      ELSE IF r.op = "bit_length" THEN (IF o.k = BitLen(ValueOfVec(r.x)) THEN "exact" ELSE "wrong value")
+     ELSE IF r.op \in {"u32_hi64_1", "u32_hi64_2", "u32_hi64_3", "u64_hi64_1", "u64_hi64_2"} THEN
+        \* r.x = the limbs, most significant first (first limb non-zero)
+        (LET w == IF r.op \in {"u64_hi64_1", "u64_hi64_2"} THEN 64 ELSE 32
+             num == FoldLeft(LAMBDA acc, k: Add(Shl(acc, w), r.x[k]), <<>>, Idx(Len(r.x)))
+             m == CASE r.op = "u32_hi64_1" -> U32Hi1(r.x[1]) [] r.op = "u32_hi64_2" -> U32Hi2(r.x[1], r.x[2])
+                    [] r.op = "u32_hi64_3" -> U32Hi3(r.x[1], r.x[2], r.x[3]) [] r.op = "u64_hi64_1" -> U64Hi1(r.x[1])
+                    [] r.op = "u64_hi64_2" -> U64Hi2(r.x[1], r.x[2])
+         IN IF HiMeans(num, [hi |-> o.h, sticky |-> o.s]) /\ m.hi = o.h /\ m.sticky = o.s THEN "exact" ELSE "wrong value")
      ELSE IF r.op = "hi64" THEN
         (LET X == ValueOfVec(r.x)  bl == BitLen(X) IN
          IF X = <<>> THEN (IF o.h = <<>> /\ ~o.s THEN "exact" ELSE "wrong value")
